@@ -9,7 +9,10 @@
 //     accepted; the untyped entry points (Split, CountValues, Stream walkers,
 //     interface{}) are judged in both directions: they must accept exactly the
 //     canonical language,
-//  4. totality: every call is guarded, every batch runs in a child process,
+//  4. totality: every call is guarded, every batch runs in a child process
+//     under an address-space limit; the case in flight is kept in a shared
+//     mapping, so a fatal death (out of memory, runaway loop) yields the exact
+//     (type, input) and the shard is resumed with that type quarantined,
 //  5. suffix independence,
 //  6. allocation bound (TotalAlloc delta, single-threaded children).
 //
@@ -20,6 +23,7 @@
 package main
 
 import (
+	"encoding/binary"
 	"encoding/json"
 	"fmt"
 	"io/ioutil"
@@ -28,6 +32,7 @@ import (
 	"reflect"
 	"runtime/debug"
 	"strconv"
+	"strings"
 	"syscall"
 	"time"
 
@@ -37,8 +42,10 @@ import (
 )
 
 const (
-	nExhShards = 32
-	nGenShards = 32
+	nExhShards  = 32
+	nGenShards  = 32
+	maxRestarts = 12
+	progSize    = 2 << 20
 )
 
 func main() {
@@ -52,57 +59,202 @@ func main() {
 		return
 	}
 
-	var specs []mon.ChildSpec
-	to := time.Duration(r.Pick(240, 3600)) * time.Second
-	for s := 0; s < nExhShards; s++ {
-		specs = append(specs, mon.ChildSpec{Label: fmt.Sprintf("exh-%d", s), Args: []string{"exh", strconv.Itoa(s)},
-			Env: []string{"GOMAXPROCS=2"}, Timeout: to})
+	type shard struct {
+		mode string
+		n    int
 	}
-	for s := 0; s < nGenShards; s++ {
-		specs = append(specs, mon.ChildSpec{Label: fmt.Sprintf("gen-%d", s), Args: []string{"gen", strconv.Itoa(s)},
-			Env: []string{"GOMAXPROCS=2"}, Timeout: to})
-	}
-	// interleave so that long exhaustive shards start early but generator shards are not all last
-	mixed := make([]mon.ChildSpec, 0, len(specs))
-	for i := 0; i < nExhShards || i < nGenShards; i++ {
+	var shards []shard
+	for i := 0; i < nExhShards || i < nGenShards; i++ { // interleaved: both kinds start early
 		if i < nExhShards {
-			mixed = append(mixed, specs[i])
+			shards = append(shards, shard{"exh", i})
 		}
 		if i < nGenShards {
-			mixed = append(mixed, specs[nExhShards+i])
+			shards = append(shards, shard{"gen", i})
 		}
 	}
-	for _, res := range r.RunChildren(mixed, 16) {
-		r.Absorb(res, "C08:"+res.Spec.Args[0])
+	if only := os.Getenv("C08_ONLY"); only != "" { // development aid: "gen:0,exh:6"
+		var sel []shard
+		for _, s := range shards {
+			for _, w := range strings.Split(only, ",") {
+				if w == fmt.Sprintf("%s:%d", s.mode, s.n) {
+					sel = append(sel, s)
+				}
+			}
+		}
+		shards = sel
 	}
+	to := time.Duration(r.Pick(600, 5400)) * time.Second
+	mon.Parallel(len(shards), 16, func(i int) { supervise(r, shards[i].mode, shards[i].n, to) })
 	mon.CleanWork()
 
 	evals := r.Get("bytes_cases") + r.Get("value_roundtrips")
 	nontriv := r.Get("accepted") + r.Get("rejected_grammatical") + int64(r.DistinctCount("value"))
-	exh := "all byte strings of length <= 3"
+	exh := "all byte strings of length <= 3 against every target type"
 	if r.Thorough() {
-		exh += " against every target type, plus all length-4 strings whose first byte is >= 0x80 against the Exh4 subset of types"
-	} else {
-		exh += " against every target type"
+		exh += ", plus all length-4 strings whose first byte is >= 0x80 against the Exh4 subset of types"
 	}
 	r.Finish(mon.Coverage{
 		Evaluations:        evals,
 		DistinctNontrivial: nontriv,
 		Exhaustive:         false,
 		Rule: "cases are (target type, byte string) pairs and (target type, value) pairs over " + strconv.Itoa(len(targets)) + " target types. " +
-			"Byte strings: exhaustive enumeration of " + exh + " (each pair visited once); one mutation of each of " + strconv.Itoa(len(mutKinds)) +
-			" kinds of the reference encoding of seeded boundary-biased values; structure-aware headers claiming sizes up to 2^64-1 (bare and wrapped in lists), deep nesting, many tiny elements. " +
-			"Non-trivial = pairs the decoder accepted (oracles 2,3,5 apply) + pairs it rejected although the string is one canonical item (counted separately in observed.accepted / observed.rejected_grammatical; exhaustive pairs are distinct by construction) " +
+			"Byte strings: exhaustive enumeration of " + exh + " (each pair visited once; a type whose decoder killed the process is quarantined for the rest of that shard, see observed.pairs_skipped_quarantined_type); " +
+			"one mutation of each of " + strconv.Itoa(len(mutKinds)) + " kinds of the reference encoding of seeded boundary-biased values; " +
+			"structure-aware headers claiming sizes up to 2^64-1 (bare and wrapped in lists), deep nesting, many tiny elements. " +
+			"Non-trivial = pairs the decoder accepted (oracles 2,3,5 apply) + pairs it rejected although the string is one canonical item (observed.accepted / observed.rejected_grammatical; exhaustive pairs are distinct by construction) " +
 			"+ distinct (type, encoding) of round-tripped values (measured set).",
 		Assumptions: []string{
 			"harness/ref/rlpref implements the yellow-paper RLP grammar (it shares no code with storage/rlp)",
 			"nil pointers to structs/arrays without the rlp:\"nil\" tag are outside the round-trip clause (their documented encoding, the empty list/string, does not decode back)",
 			"rlp.RawValue: only the headers the decoder reads are held to the grammar (content documented as unverified)",
 			fmt.Sprintf("allocation bound: TotalAlloc delta of one DecodeBytes <= %d*len(input)+%d bytes", allocPerByte, allocSlack),
+			"rlp.Decode on a reader of unknown length is not fed inputs claiming between 16 MiB and 2^63 bytes (it allocates what is claimed)",
 		},
 		MustObserve: []string{"value_roundtrips", "accepted", "rejected_grammatical", "rejected_ungrammatical", "reencode_checks", "suffix_checks",
 			"split_checks", "count_checks", "stream_walks", "alloc_checks", "reader_checks", "exh_strings", "mutated_strings", "hostile_strings"},
 	})
+}
+
+// ---------------------------------------------------------------------------
+// progress mapping: [0:8] unit up to which counters were flushed, [8:16] unit in
+// flight, [16:20] target index (-1: untyped API), [20] mode, [24:28] length of
+// the input, [32:] the input. Written with plain stores before every execution.
+
+var prog []byte
+
+const (
+	pmBytes = iota
+	pmValue
+	pmAlloc
+	pmReader
+	pmUntyped
+)
+
+var pmNames = [...]string{"bytes", "value", "alloc", "reader", "untyped"}
+
+func openProg(path string, create bool) []byte {
+	flags := os.O_RDWR
+	if create {
+		flags |= os.O_CREATE
+	}
+	f, err := os.OpenFile(path, flags, 0644)
+	if err != nil {
+		return nil
+	}
+	defer f.Close()
+	if create {
+		f.Truncate(progSize)
+	}
+	m, err := syscall.Mmap(int(f.Fd()), 0, progSize, syscall.PROT_READ|syscall.PROT_WRITE, syscall.MAP_SHARED)
+	if err != nil {
+		return nil
+	}
+	return m
+}
+
+var curUnit uint64
+
+// mark records the execution about to start.
+func mark(tg *target, mode byte, b []byte, idx int) {
+	if prog == nil {
+		return
+	}
+	binary.LittleEndian.PutUint64(prog[8:], curUnit)
+	ti := int32(-1)
+	if tg != nil {
+		ti = int32(tg.idx)
+	}
+	binary.LittleEndian.PutUint32(prog[16:], uint32(ti))
+	prog[20] = mode
+	binary.LittleEndian.PutUint32(prog[24:], uint32(len(b)))
+	binary.LittleEndian.PutUint32(prog[28:], uint32(idx))
+	if len(b) > progSize-32 {
+		b = b[:progSize-32]
+	}
+	copy(prog[32:], b)
+}
+
+func readProg(dir string) (flushed uint64, c *Case) {
+	b, err := ioutil.ReadFile(filepath.Join(dir, "progress"))
+	if err != nil || len(b) < 32 {
+		return 0, nil
+	}
+	flushed = binary.LittleEndian.Uint64(b[0:])
+	ti := int32(binary.LittleEndian.Uint32(b[16:]))
+	n := int(binary.LittleEndian.Uint32(b[24:]))
+	if n > len(b)-32 {
+		n = len(b) - 32
+	}
+	c = &Case{Input: append([]byte{}, b[32:32+n]...), Index: int(binary.LittleEndian.Uint32(b[28:])), Origin: "in flight when the child died"}
+	if int(b[20]) < len(pmNames) {
+		c.Mode = pmNames[b[20]]
+	}
+	if ti >= 0 && int(ti) < len(targets) {
+		c.Type = targets[ti].Name
+	}
+	return flushed, c
+}
+
+// supervise runs one shard to completion: a child that dies is a totality
+// violation with the in-flight case as witness; the shard is resumed from the
+// last flushed unit with the offending type quarantined.
+func supervise(r *mon.Run, mode string, shard int, to time.Duration) {
+	start := uint64(0)
+	skip := []string{}
+	for attempt := 0; ; attempt++ {
+		dir := filepath.Join(mon.WorkDir(), fmt.Sprintf("%s-%d-%d", mode, shard, attempt))
+		sk, _ := json.Marshal(skip)
+		res := r.RunChild(mon.ChildSpec{Label: fmt.Sprintf("%s-%d", mode, shard),
+			Args: []string{mode, strconv.Itoa(shard), strconv.FormatUint(start, 10)},
+			Env:  []string{"GOMAXPROCS=2", "C08_SKIP=" + string(sk)}, Dir: dir, Timeout: to})
+		if _, err := os.Stat(res.Partial); err == nil {
+			if e := r.Merge(res.Partial); e != nil {
+				r.Note("merge %s: %v", res.Spec.Label, e)
+			}
+		}
+		if res.Exit == 0 && !res.TimedOut {
+			return
+		}
+		flushed, c := readProg(dir)
+		if res.TimedOut {
+			r.Inconclusive("child %s hit the %v watchdog; case in flight: %+v", res.Spec.Label, to, c)
+			return
+		}
+		if res.Exit == 2 && c == nil {
+			r.Inconclusive("child %s exited 2 before running anything: %s", res.Spec.Label, res.LogTail)
+			return
+		}
+		logHT := mon.HeadTail(res.LogFile, 3500)
+		site := mon.FatalSite(logHT)
+		typ := ""
+		if c != nil {
+			typ = c.Type
+		}
+		r.Violation("C08:fatal:type="+typ+":"+site,
+			fmt.Sprintf("child process died with exit %d (%s) while executing mode=%s type=%s input=%x", res.Exit, site, modeOf(c), typ, clipCase(c)),
+			map[string]interface{}{"case": c, "log": logHT})
+		r.Count("child_deaths", 1)
+		if typ == "" || attempt >= maxRestarts {
+			r.Inconclusive("shard %s-%d abandoned after a death that cannot be quarantined (type %q, attempt %d): units >= %d unexplored", mode, shard, typ, attempt, flushed)
+			return
+		}
+		skip = append(skip, typ)
+		start = flushed
+	}
+}
+
+func modeOf(c *Case) string {
+	if c == nil {
+		return "?"
+	}
+	return c.Mode
+}
+
+func clipCase(c *Case) []byte {
+	if c == nil {
+		return nil
+	}
+	return clip(c.Input)
 }
 
 // ---------------------------------------------------------------------------
@@ -111,15 +263,8 @@ func main() {
 // allocations are not attributed to a measured case.
 func warmup(tg *target) {
 	defer func() { recover() }()
-	saved := cnt
 	rlp.DecodeBytes([]byte{0xc0}, reflect.New(tg.T).Interface())
 	rlp.DecodeBytes([]byte{0x80}, reflect.New(tg.T).Interface())
-	cnt = saved
-}
-
-func logCase(r *mon.Run, c Case) {
-	b, _ := json.Marshal(c)
-	r.CaseBegin(b)
 }
 
 // runBytesAll: one byte string against the untyped API and a set of targets.
@@ -127,25 +272,51 @@ func runBytesAll(r *mon.Run, b []byte, tgs []*target, o byteOpts) {
 	ri := refOf(b)
 	checkUntyped(r, b, ri, o.origin)
 	for _, tg := range tgs {
+		if tg.skip {
+			cnt[c_pairs_skipped_quarantined_type]++
+			continue
+		}
 		cnt[c_bytes_cases]++
 		checkBytes(r, tg, b, ri, o)
+	}
+}
+
+var (
+	startUnit  uint64
+	flushEvery uint64
+)
+
+// unitDone: called after every unit; flushes counters + progress periodically.
+func unitDone(r *mon.Run) {
+	curUnit++
+	if curUnit%flushEvery == 0 {
+		flushCounts(r)
+		r.FlushChild()
+		if prog != nil {
+			binary.LittleEndian.PutUint64(prog[0:], curUnit)
+		}
 	}
 }
 
 func child(r *mon.Run, args []string) {
 	// the live heap of a child is tiny; without this the collector runs every few MB of garbage
 	debug.SetGCPercent(1600)
-	// memory guard: a decoder that trusts a declared length must kill this child ("out of memory" ->
-	// reported by the parent with the logged case), not the machine
-	lim := uint64(4) << 30
+	debug.SetMemoryLimit(1 << 30) // ... but collect before the address-space limit below is in sight
+	// memory guard: a decoder that trusts a declared length (or loops without consuming input) must
+	// kill this child ("out of memory" -> reported by the parent with the case in flight), not the machine
+	lim := uint64(3) << 30
 	syscall.Setrlimit(syscall.RLIMIT_AS, &syscall.Rlimit{Cur: lim, Max: lim})
-	shard, _ := strconv.Atoi(args[1])
-	switch args[0] {
-	case "exh":
-		childExh(r, shard)
-	case "gen":
-		childGen(r, shard)
-	case "case":
+	for i, tg := range targets {
+		tg.idx = i
+	}
+	var skip []string
+	json.Unmarshal([]byte(os.Getenv("C08_SKIP")), &skip)
+	for _, n := range skip {
+		if tg := targetByName(n); tg != nil {
+			tg.skip = true
+		}
+	}
+	if args[0] == "case" {
 		var c Case
 		cb, err := ioutil.ReadFile(args[1])
 		if err == nil {
@@ -155,8 +326,24 @@ func child(r *mon.Run, args []string) {
 			fmt.Println("MACHINERY: bad case", err)
 			os.Exit(2)
 		}
-		logCase(r, c)
+		r.CaseBegin(cb)
 		runCase(r, c)
+		flushCounts(r)
+		r.Finish(mon.Coverage{})
+	}
+	shard, _ := strconv.Atoi(args[1])
+	startUnit, _ = strconv.ParseUint(args[2], 10, 64)
+	prog = openProg("progress", true)
+	if prog != nil {
+		binary.LittleEndian.PutUint64(prog[0:], startUnit)
+	}
+	switch args[0] {
+	case "exh":
+		flushEvery = 64
+		childExh(r, shard)
+	case "gen":
+		flushEvery = 16
+		childGen(r, shard)
 	}
 	flushCounts(r)
 	r.Finish(mon.Coverage{})
@@ -164,7 +351,8 @@ func child(r *mon.Run, args []string) {
 
 // childExh enumerates every byte string of length <= 3 (4 in thorough for
 // prefix bytes) whose first byte belongs to this shard (first bytes are dealt
-// round-robin; the shard of the empty string and of length-0 is shard 0).
+// round-robin; the empty string belongs to shard 0). Unit = block of up to 256
+// strings that share all but the last byte.
 func childExh(r *mon.Run, shard int) {
 	var exh4 []*target
 	for _, tg := range targets {
@@ -174,8 +362,11 @@ func childExh(r *mon.Run, shard int) {
 	}
 	o := byteOpts{origin: "exh", nJunk: 2}
 	if shard == 0 {
-		cnt[c_exh_strings]++
-		runBytesAll(r, []byte{}, targets, o)
+		if curUnit >= startUnit {
+			cnt[c_exh_strings]++
+			runBytesAll(r, []byte{}, targets, o)
+		}
+		unitDone(r)
 	}
 	maxLen := 3
 	if r.Thorough() {
@@ -197,21 +388,28 @@ func childExh(r *mon.Run, shard int) {
 				n *= 256
 			}
 			for x := 0; x < n; x++ {
+				if curUnit < startUnit { // resumed shard: skip whole blocks already accounted for
+					x |= 0xff
+					if x&0xff == 0xff || x == n-1 {
+						curUnit++
+					}
+					continue
+				}
 				for i := l - 1; i >= 1; i-- {
 					buf[i] = byte(x >> uint(8*(l-1-i)))
-				}
-				if x&0xff == 0 {
-					logCase(r, Case{Mode: "exh-block", Input: append([]byte{}, buf[:l]...)})
 				}
 				b := append([]byte{}, buf[:l]...)
 				cnt[c_exh_strings]++
 				runBytesAll(r, b, tgs, o)
+				if x&0xff == 0xff || x == n-1 {
+					unitDone(r)
+				}
 			}
 		}
 	}
 }
 
-// childGen: seeded generators. Work items are dealt round-robin over the shards.
+// childGen: seeded generators. Work items (units) are dealt round-robin over the shards.
 func childGen(r *mon.Run, shard int) {
 	nVal := r.Pick(1500, 60000) // values per type
 	nMut := r.Pick(250, 10000)  // of which mutated (x len(mutKinds))
@@ -219,9 +417,8 @@ func childGen(r *mon.Run, shard int) {
 	iface, raw := targetByName("interface{}"), targetByName("rlp.RawValue")
 	var allocT []*target
 	for _, tg := range targets {
-		if tg.Alloc {
+		if tg.Alloc && !tg.skip {
 			allocT = append(allocT, tg)
-			// warm the type cache so that its one-time allocations are not measured
 			warmup(tg)
 		}
 	}
@@ -232,28 +429,35 @@ func childGen(r *mon.Run, shard int) {
 			if item%nGenShards != shard {
 				continue
 			}
-			logCase(r, Case{Mode: "value", Type: tg.Name, Index: idx})
+			if curUnit < startUnit {
+				curUnit++
+				continue
+			}
+			if tg.skip {
+				cnt[c_pairs_skipped_quarantined_type]++
+				unitDone(r)
+				continue
+			}
 			enc := checkValue(r, tg, idx)
 			r.Distinct("value", []byte(tg.Name), enc)
 			runBytesAll(r, enc, []*target{tg, iface, raw}, byteOpts{origin: "valid", nJunk: 4})
 			if idx < 6 && ti%9 == 0 {
 				r.Sample(Case{Mode: "value", Type: tg.Name, Index: idx, Input: enc})
 			}
-			if idx >= nMut {
-				continue
-			}
-			rng := r.Rand("mutate", tg.Name, idx)
-			for _, mk := range mutKinds {
-				b := mutate(rng, enc, mk)
-				origin := "mut:" + mk
-				logCase(r, Case{Mode: "bytes", Type: tg.Name, Input: b, Origin: origin})
-				cnt[c_mutated_strings]++
-				runBytesAll(r, b, []*target{tg, iface, raw}, byteOpts{origin: origin, nJunk: 3})
-				if tg.Alloc {
-					checkAlloc(r, tg, b, origin)
+			if idx < nMut {
+				rng := r.Rand("mutate", tg.Name, idx)
+				for _, mk := range mutKinds {
+					b := mutate(rng, enc, mk)
+					origin := "mut:" + mk
+					cnt[c_mutated_strings]++
+					runBytesAll(r, b, []*target{tg, iface, raw}, byteOpts{origin: origin, nJunk: 3})
+					if tg.Alloc {
+						checkAlloc(r, tg, b, origin)
+					}
+					checkAlloc(r, iface, b, origin)
 				}
-				checkAlloc(r, iface, b, origin)
 			}
+			unitDone(r)
 		}
 	}
 	// hostile headers: every string against every type; allocation + reader entry points on the Alloc subset
@@ -261,8 +465,11 @@ func childGen(r *mon.Run, shard int) {
 		if i%nGenShards != shard {
 			continue
 		}
+		if curUnit < startUnit {
+			curUnit++
+			continue
+		}
 		b := hostile(r.Rand("hostile", i))
-		logCase(r, Case{Mode: "bytes", Type: "*", Input: b, Origin: "hostile"})
 		cnt[c_hostile_strings]++
 		runBytesAll(r, b, targets, byteOpts{origin: "hostile", nJunk: 2})
 		for _, tg := range allocT {
@@ -274,6 +481,7 @@ func childGen(r *mon.Run, shard int) {
 		if i < 4 {
 			r.Sample(Case{Mode: "bytes", Type: "*", Input: b, Origin: "hostile"})
 		}
+		unitDone(r)
 	}
 	// fixed hostile shapes: deep nesting and many tiny elements (allocation amplification)
 	if shard == 0 {
@@ -283,7 +491,11 @@ func childGen(r *mon.Run, shard int) {
 			depths = append(depths, 20000)
 			counts = append(counts, 200000)
 		}
-		rec := targetByName("Rec{uint64,[]Rec}")
+		shapeT := []*target{}
+		if rec := targetByName("Rec{uint64,[]Rec}"); !rec.skip {
+			shapeT = append(shapeT, rec)
+		}
+		shapeT = append(shapeT, allocT...)
 		var shapes [][]byte
 		for _, d := range depths {
 			shapes = append(shapes, nested(d, []byte{0xc0}), nested(d, []byte{0x80}), nested(d, []byte{0x05}))
@@ -293,12 +505,16 @@ func childGen(r *mon.Run, shard int) {
 				manyElems(n, []byte{0xc1, 0xc0}), manyElems(n, []byte{0x81, 0x80}))
 		}
 		for _, b := range shapes {
-			logCase(r, Case{Mode: "bytes", Type: "*", Input: b, Origin: "shape"})
+			if curUnit < startUnit {
+				curUnit++
+				continue
+			}
 			cnt[c_hostile_strings]++
-			runBytesAll(r, b, append([]*target{rec}, allocT...), byteOpts{origin: "shape", nJunk: 1})
-			for _, tg := range append([]*target{rec}, allocT...) {
+			runBytesAll(r, b, shapeT, byteOpts{origin: "shape", nJunk: 1})
+			for _, tg := range shapeT {
 				checkAlloc(r, tg, b, "shape")
 			}
+			unitDone(r)
 		}
 	}
 }
@@ -315,35 +531,16 @@ func runCase(r *mon.Run, c Case) {
 		runBytesAll(r, enc, []*target{tg}, o)
 	case "untyped":
 		checkUntyped(r, c.Input, refOf(c.Input), c.Origin)
-	case "exh-block":
-		// the block of 256 strings that share all but the last byte
-		b := append([]byte{}, c.Input...)
-		for last := 0; last < 256; last++ {
-			if len(b) > 1 {
-				b[len(b)-1] = byte(last)
-			} else if last > 0 {
-				break
-			}
-			tgs := targets
-			if len(b) == 4 {
-				tgs = nil
-				for _, tg := range targets {
-					if tg.Exh4 {
-						tgs = append(tgs, tg)
-					}
-				}
-			}
-			runBytesAll(r, append([]byte{}, b...), tgs, byteOpts{origin: "exh", nJunk: 2})
-		}
 	case "bytes":
 		tgs := targets
 		if tg := targetByName(c.Type); tg != nil {
 			tgs = []*target{tg}
 		}
 		runBytesAll(r, c.Input, tgs, o)
-		if c.Type == "*" {
+		if c.Type == "*" || c.Type == "" {
 			for _, tg := range tgs {
 				if tg.Alloc {
+					warmup(tg)
 					checkAlloc(r, tg, c.Input, c.Origin)
 					checkReader(r, tg, c.Input, c.Origin)
 				}
@@ -374,20 +571,13 @@ func replay(r *mon.Run, path string) {
 		r.Tier = v.Tier
 	}
 	var w struct {
-		Case     *Case   `json:"case"`      // Guard witness
-		LastCase mon.Hex `json:"last_case"` // Absorb (fatal) witness
+		Case *Case `json:"case"` // Guard / supervise witness
 	}
 	var c Case
 	json.Unmarshal(v.Witness, &w)
-	switch {
-	case w.Case != nil:
+	if w.Case != nil {
 		c = *w.Case
-	case len(w.LastCase) > 0:
-		if err := json.Unmarshal(w.LastCase, &c); err != nil {
-			fmt.Println("MACHINERY: fatal witness without a case:", err)
-			os.Exit(2)
-		}
-	default:
+	} else {
 		json.Unmarshal(v.Witness, &c)
 	}
 	// always in a child: the case may kill the process
@@ -400,4 +590,3 @@ func replay(r *mon.Run, path string) {
 	n := r.Get("bytes_cases") + r.Get("value_roundtrips") + r.Get("alloc_checks") + r.Get("reader_checks") + r.Get("split_checks")
 	r.Finish(mon.Coverage{Evaluations: n + 1, DistinctNontrivial: 2, Rule: "replay of one recorded case"})
 }
-
